@@ -301,25 +301,37 @@ Definition find_prim (name : string) : option (string * string * list (string * 
   end.
 
 (* BipolarParams.__post_init__ (repaired): a Prefixed width / length must not compare `<= 0`
-   (Prefixed.__le__ against to_prefixed(0), i.e. within the comparison tolerance of Model/Prefixed.v) *)
+   (Prefixed.__le__ against to_prefixed(0), i.e. within the comparison tolerance of Model/Prefixed.v).
+   `isinstance(self.w, Prefixed)` is asked of the stored thing through `pre_of` (a plain value: is it VPrefixed;
+   an object of Model/C13Dispatch.v: has it the Prefixed facet). *)
 Definition not_positive (p : pfx) : result bool := u <- unit_prefix ;; Ok (pcmp OLe p (mkP (of_int 0 0) u)).
-Definition positive_check (stored : list (str * value)) (field : string) : result unit :=
+Definition positive_check_by {A} (pre_of : A -> option pfx) (stored : list (str * A)) (field : string) : result unit :=
   match str_assoc (of_string field) stored with
-  | Some (VPrefixed p) => b <- not_positive p ;; if b then Error EOther else Ok tt      (* ValueError *)
-  | _ => Ok tt
+  | Some x => match pre_of x with
+              | Some p => b <- not_positive p ;; if b then Error EOther else Ok tt      (* ValueError *)
+              | None => Ok tt
+              end
+  | None => Ok tt
   end.
-Definition post_init (pclass : string) (stored : list (str * value)) : result unit :=
-  if String.eqb pclass "BipolarParams" then _ <- positive_check stored "w" ;; positive_check stored "l" else Ok tt.
+Definition post_init_by {A} (pre_of : A -> option pfx) (pclass : string) (stored : list (str * A)) : result unit :=
+  if String.eqb pclass "BipolarParams"
+  then _ <- positive_check_by pre_of stored "w" ;; positive_check_by pre_of stored "l" else Ok tt.
+Definition as_prefixed (v : value) : option pfx := match v with VPrefixed p => Some p | _ => None end.
+Definition positive_check (stored : list (str * value)) (field : string) : result unit := positive_check_by as_prefixed stored field.
+Definition post_init (pclass : string) (stored : list (str * value)) : result unit := post_init_by as_prefixed pclass stored.
 
-Definition export_instance (c : call) : result (str * str * list (str * pvalue)) :=
-  stored <- store_all (c_params c) ;;
-  match c_tgt c with
+(* everything after the construction of the parameter object: `fields` are the (name, kind) pairs the call supplied,
+   `checks pclass` is the outcome of the parameter class's own __post_init__, `stored` the values as export_param_value
+   sees them *)
+Definition export_stored (tgt : target) (fields : list (str * Z)) (checks : string -> result unit)
+                         (stored : list (str * value)) : result (str * str * list (str * pvalue)) :=
+  match tgt with
   | TPrim name =>
       match find_prim name with
       | None => Error EMissing
       | Some (ty, pc, fs) =>
-          if negb (fields_eqb (prim_fields fs) (call_fields (c_params c))) then Error EExtra
-          else if negb (is_ok (post_init pc stored)) then Error EOther
+          if negb (fields_eqb (prim_fields fs) fields) then Error EExtra
+          else if negb (is_ok (checks pc)) then Error EOther
           else if String.eqb ty "PHYSICAL" then
             ps <- export_params stored ;; Ok (of_string "hdl21.primitives", of_string name, ps)
           else if String.eqb ty "IDEAL" then
@@ -335,3 +347,7 @@ Definition export_instance (c : call) : result (str * str * list (str * pvalue))
       ps <- export_params stored ;;
       Ok (match dom with Some d => d | None => [] end, name, ps)
   end.
+
+Definition export_instance (c : call) : result (str * str * list (str * pvalue)) :=
+  stored <- store_all (c_params c) ;;
+  export_stored (c_tgt c) (call_fields (c_params c)) (fun pc => post_init pc stored) stored.
